@@ -28,6 +28,26 @@ theorem label_encodes (r : Row) :
   unfold labelDecode labelId symLen
   split <;> (ext <;> simp <;> omega)
 
+/-- **the MCNP id encodes (z, a, state)**: with the element's mass window known, decoding returns them -/
+theorem mcnp_decodes (r : Row) (a0 : Nat) (hlo : a0 ≤ r.a) (hhi : r.a < a0 + 100) (ha : r.a < 400)
+    (hs : r.s ≤ 3) : mcnpDecode a0 (mcnpId r) = (r.z, r.a, r.s) := by
+  have hm : mcnpA r.z r.a r.s < 1000 := by unfold mcnpA; repeat' split
+                                           all_goals omega
+  unfold mcnpDecode mcnpId
+  have h1 : (r.z * 1000 + mcnpA r.z r.a r.s) / 1000 = r.z := by omega
+  have h2 : (r.z * 1000 + mcnpA r.z r.a r.s) % 1000 = mcnpA r.z r.a r.s := by omega
+  simp only [h1, h2]
+  have hA : a0 + (mcnpA r.z r.a r.s + 100 - a0 % 100) % 100 = r.a := by
+    unfold mcnpA; repeat' split
+    all_goals omega
+  rw [hA]
+  unfold mcnpA
+  repeat' split
+  all_goals (first | (ext <;> simp <;> omega) | omega | simp_all)
+
+example : mcnpDecode 230 (mcnpId ⟨95, 0, 242, 0, 147, 0⟩) = (95, 242, 0) ∧ mcnpId ⟨95, 0, 242, 0, 147, 0⟩ = 95642 ∧
+    mcnpDecode 230 95242 = (95, 242, 1) ∧ mcnpDecode 170 73580 = (73, 180, 1) := by decide
+
 /-- the MCNP id starts with the atomic number -/
 theorem mcnp_encodes_z (r : Row) (h : mcnpA r.z r.a r.s < 1000) : mcnpId r / 1000 = r.z := by
   unfold mcnpId; omega
